@@ -182,7 +182,15 @@ Dispatch ==
 (***************************************************************************)
 (* Handlers.                                                               *)
 (***************************************************************************)
-Cancelled(t) == t \in cancelOK \/ (stopped /\ mem[t].id # "")
+\* cancelOK also carries two kinds of marks: "__base" (the base context every request context derives from has
+\* ended) and "done:" \o t (t was dispatched and waiting for a slot - every slot taken - when its cancellation
+\* completed: its handler must never run, C06)
+BaseDone == "__base" \in cancelOK
+Cancelled(t) == t \in cancelOK \/ BaseDone \/ (stopped /\ mem[t].id # "")
+Saturated == Cardinality(running) >= conc
+\* dispatched calls that have not started.  (Where the duplicate-id verdict is not judged - see Dequeue - a call may
+\* have been classified either way; a true duplicate never runs anyway, so including it costs nothing.)
+WaitingCalls == {x \in DOMAIN mem : mem[x].k = "call" /\ (mem[x].st = "ready" \/ (mem[x].st = "static" /\ mem[x].cls = "dup"))}
 
 HStart ==
   /\ IsEvent("HStart")
@@ -195,12 +203,14 @@ HStart ==
         \* dropped or discarded by the stop: C08; filtered reply: C09)
         \/ /\ mem[t].st = "static"
            /\ Imp("C02", mem[t].cls \notin {"inv", "nf", "reply"})
-           /\ Imp("C07", mem[t].cls # "dup")
+           /\ mem[t].cls # "dup"       \* (where C07 is not judged the verdict itself may be flipped at Dequeue, but a
+                                       \*  member taken for a duplicate behaves like one: it never runs ...)
         \/ /\ mem[t].st = "gone"
            /\ Imp("C08", mem[t].cls \notin {"dropped", "discarded"})
            /\ Imp("C09", mem[t].cls \notin {"matched", "droppedreply"})
            /\ Imp("C01", FALSE)
      /\ Imp("C06", Cardinality(running) < conc)
+     /\ Imp("C06", ("done:" \o t) \notin cancelOK)   \* cancelled while it waited for a slot: never runs
      /\ Imp("C01", mem[t].st # "done")          \* exactly one invocation
      /\ Imp("C17", Ev.inb)
      /\ running' = running \cup {t}
@@ -260,7 +270,7 @@ ItemOK(it, t) ==
             /\ CASE x.cls = "nf"    -> Imp("C02", it.code = -32601)
                  [] x.cls = "inv"   -> Imp("C02", it.code \in {-32700, -32600})
                  [] x.cls = "reply" -> Imp("C02", it.code = -32600)
-                 [] x.cls = "dup"   -> Imp("C07", it.code = -32600 /\ it.dup)
+                 [] x.cls = "dup"   -> it.code = -32600 /\ it.dup      \* (... and is answered as one)
                  [] OTHER -> TRUE
             /\ Imp("C07", x.cls # "dup" => ~it.dup)
        [] OTHER -> FALSE
@@ -317,7 +327,13 @@ SendOK ==
      \/ PushNoteSend
      \/ PushCallSend
      \/ /\ ~("C01" \in Enforce \/ "C02" \in Enforce \/ "C09" \in Enforce \/ "C07" \in Enforce)
-        /\ UNCHANGED <<units, used, mem, cbs, notes>>       \* unexplained output is only judged by those
+        \* unexplained output is only judged by those - except that C06 judges the answer given to a call
+        \* that never started (it must be the cancellation error): such a record has to be a unit's reply
+        /\ Imp("C06", ~\E i \in 1..Len(Ev.items) : \E t \in DOMAIN mem :
+                           /\ (mem[t].st = "ready" \/ (mem[t].st = "static" /\ mem[t].cls = "dup"))   \* (dup: possibly a flipped verdict)
+                           /\ mem[t].id # "" /\ Ev.items[i].kind \in {"error", "result"}
+                           /\ Ev.items[i].id = IdText(mem[t]))
+        /\ UNCHANGED <<units, used, mem, cbs, notes>>
   /\ UNCHANGED <<conc, push, rq, running, stopped, pend, causes, cancelOK, hcanc, waitRet, rdDone, sendBad, stopOpen>>
 
 \* A Send that the channel refused (closed or failing): nothing was delivered; if it was the
@@ -393,7 +409,15 @@ CancelB ==
   /\ IsEvent("CancelB")
   /\ cancelOK' = IF Ev.id \in DOMAIN used THEN cancelOK \cup {used[Ev.id]} ELSE cancelOK
   /\ UNCHANGED <<conc, push, mem, units, rq, used, running, stopped, pend, causes, hcanc, cbs, notes, waitRet, rdDone, sendBad, stopOpen>>
-CancelE == IsEvent("CancelE") /\ UNCHANGED <<conc, push, mem, units, rq, used, running, stopped, pend, causes, cancelOK, hcanc, cbs, notes, waitRet, rdDone, sendBad, stopOpen>>
+\* CancelRequest has returned.  (The harness runs it while every other goroutine is parked or blocked, so the
+\* owner of the id is the one CancelB saw.)
+CancelE == /\ IsEvent("CancelE")
+           /\ cancelOK' = IF Saturated THEN cancelOK \cup {"done:" \o t : t \in {x \in WaitingCalls : mem[x].id = Ev.id}} ELSE cancelOK
+           /\ UNCHANGED <<conc, push, mem, units, rq, used, running, stopped, pend, causes, hcanc, cbs, notes, waitRet, rdDone, sendBad, stopOpen>>
+\* The context ServerOptions.NewContext hands out has ended: every request context, present and future, is done.
+BaseEnd == /\ IsEvent("BaseEnd")
+           /\ cancelOK' = cancelOK \cup {"__base"} \cup (IF Saturated THEN {"done:" \o t : t \in WaitingCalls} ELSE {})
+           /\ UNCHANGED <<conc, push, mem, units, rq, used, running, stopped, pend, causes, hcanc, cbs, notes, waitRet, rdDone, sendBad, stopOpen>>
 
 (***************************************************************************)
 (* Server push.                                                            *)
@@ -505,7 +529,7 @@ Start ==   \* (re)start on a fresh channel: a new generation
   /\ IsEvent("Start")
   /\ Imp("C08", Ev.gen > 1 => waitRet)
   /\ mem' = EmptyFn /\ units' = <<>> /\ rq' = <<>> /\ used' = EmptyFn /\ running' = {}
-  /\ stopped' = FALSE /\ pend' = {} /\ causes' = {} /\ cancelOK' = {} /\ hcanc' = {}
+  /\ stopped' = FALSE /\ pend' = {} /\ causes' = {} /\ cancelOK' = cancelOK \cap {"__base"} /\ hcanc' = {}   \* an ended base context stays ended
   /\ UNCHANGED cbs           \* a callback outstanding across a restart is still outstanding
   /\ notes' = [open |-> 0, sent |-> 0] /\ waitRet' = FALSE /\ rdDone' = FALSE
   /\ sendBad' = FALSE /\ stopOpen' = FALSE
@@ -534,7 +558,7 @@ Terminal == /\ l <= Len(Trace) /\ Ev.ev \in {"Crash", "Deadlock", "Leak"}
             /\ UNCHANGED <<conc, push, mem, units, rq, used, running, stopped, pend, causes, cancelOK, hcanc, cbs, notes, waitRet, rdDone, sendBad, stopOpen>>
 
 Next == \/ Reset \/ Start \/ RecvMsg \/ Enqueue \/ Dequeue \/ Dispatch \/ HStart \/ HCancel \/ HExit
-        \/ SendOK \/ SendFailed \/ StopB \/ StopE \/ RecvErr \/ ChClose \/ CancelB \/ CancelE
+        \/ SendOK \/ SendFailed \/ StopB \/ StopE \/ RecvErr \/ ChClose \/ CancelB \/ CancelE \/ BaseEnd
         \/ NotifyB \/ NotifyE \/ CallbackB \/ CtxEnd \/ CallbackE \/ WaitStatus \/ Quiescent
         \/ SendFailArmed \/ Final \/ Ignored \/ Terminal
 
